@@ -100,6 +100,28 @@ class Gen:
         acts = []
         parents = [h for h, t in self.types.items() if h in self.tree and t in CHILD_TYPE]
         generated = [h for h in self.tree if h.startswith('g_')]
+        nested = [(c, p) for c, p in self.tree.items() if c in generated and p in generated]
+        if nested and self.rng.random() < 0.3:
+            # one transaction that removes a subtree AND touches something inside it
+            c, p = self.rng.choice(nested)
+            k = self.rng.random()
+            if k < 0.35:          # remove a child and its ancestor (either order): allowed, the subtree goes once
+                acts = [['del', c], ['del', p]]
+                if self.rng.random() < 0.5:
+                    acts.reverse()
+                self._del(p)
+            elif k < 0.7:         # update a descriptor inside the removed subtree: must be rejected as a whole
+                acts = [['upd', c, self.fresh()], ['del', p]]
+                if self.rng.random() < 0.5:
+                    acts.reverse()
+            else:                 # create a descriptor below a removed one: must be rejected as a whole
+                t = self.types[p]
+                if t not in CHILD_TYPE:
+                    return None
+                acts = [['add', f'g_{self.fresh()}', p, CHILD_TYPE[t], self.fresh(), None], ['del', p]]
+                if self.rng.random() < 0.5:
+                    acts.reverse()
+            return {'k': 'descr', 'iface': iface, 'actions': acts, 'subtree_conflict': True}
         if r < 0.35 and parents:
             p = self.rng.choice(parents)
             t = CHILD_TYPE[self.types[p]]
